@@ -7,7 +7,7 @@ from obligations.C08 import LFHT_TRUSTED
 
 SEL = ('C08.O7.small.next_replaced', 'C08.O7.small.add_helps', 'C07.O2.gc_bucket_retry_small', 'C06.O1.add_unique_small', 'C06.O1.add_unique', 'C06.O3.cds_lfht_add_replace', 'C08.O4.next', 'C08.O4.first', 'C08.O4.lookup', 'C08.O4.next_duplicate', 'C08.O5.add_plain', 'C08.O5.add_bucket', 'C07.O2.gc_bucket', 'C07.O2.gc_bucket_small', 'C07.O1.del',
        'C06.O2.replace', 'C06.O2.replace_removed', 'C08.O1.tags')
-OBLIGATIONS = [o for o in _c08.OBLIGATIONS if o.name in SEL] + [o for o in _c09.OBLIGATIONS if o.name in ('C09.O3.init_table', 'C09.O3.fini_table', 'C09.O5.init_table_populate_partition', 'C09.O5.remove_table_partition', 'C09.O4.partition_helper')]
+OBLIGATIONS = [o for o in _c08.OBLIGATIONS if o.name in SEL] + [o for o in _c09.OBLIGATIONS if o.name in ('C09.O2.resize_retarget', 'C09.O3.init_table', 'C09.O3.fini_table', 'C09.O5.init_table_populate_partition', 'C09.O5.remove_table_partition', 'C09.O4.partition_helper')]
 META = {
     'level': 'other',
     'explanation': 'Linearizability of whole histories is outside contract-based verification. Decided instead, for chains of unbounded length: (1) every write the hash table makes to a shared next word is one of the four relations the Harris/Michael argument needs - insert-before-successor with the new node linked first (add), unlink of a node whose REMOVED flag was observed with the predecessor\'s BUCKET bit kept (gc), flag-only mark with the pointer part frozen (del), single-CAS replace carrying pointer+REMOVED+OWNER with new.next equal to the expected successor (replace, also when the iterator is stale); (2) lookup / next / next_duplicate / first return the FIRST qualifying node at or after their start under arbitrary REMOVED/BUCKET flags on the chain, skipping nothing live (so a resident node is found in every state in which it is on its chain); (3) grow publishes a size only after allocating and populating that order (release store), shrink publishes, waits a grace period, unlinks, waits again, frees.',
